@@ -56,7 +56,11 @@ ApplyLadder(e) ==
         even == \A j \in 1..Len(e.coef) : (j % 2 = 0) => FEq(e.coef[j], Zero)
     IN
     IF e.raised THEN << <<"constructs", e.error>> >>
-    ELSE IF \E r \in 1..R : ~gridok(r) THEN << <<"harness-grid", ToString(MinOf({r \in 1..R : ~gridok(r)}))>> >>
+    \* a grid the caller supplied is the harness's business; the grid the library built itself (q_calc = None) must
+    \* have the data spacing and cover every window
+    ELSE IF \E r \in 1..R : ~gridok(r) THEN
+         << <<IF e.supplied THEN "harness-grid" ELSE "default-grid-does-not-cover-windows",
+              ToString(<<"rung", MinOf({r \in 1..R : ~gridok(r)}), "first", e.rungs[1].first, "last", e.rungs[1].last>>)>> >>
     ELSE
       Bad(\A r \in 1..(R - 1) : FEq(FMul("2.0", e.rungs[r + 1].h), e.rungs[r].h), "refines", "")
       \o Bad(badr = {}, "converges",
